@@ -285,6 +285,23 @@ def run_case(ck, desc):
         if not (np.array_equal(c_before, c_after, equal_nan=True) and np.array_equal(l_before, l_after, equal_nan=True)):
             ck.violation("object-independent-of-later-edits-of-the-callers-table", {"form": form, "max_rel_change_c": float(np.nanmax(np.abs(c_after / c_before - 1))), "max_rel_change_lambda": float(np.nanmax(np.abs(l_after / l_before - 1)))}, desc)
         ck.count(f"objects_re-evaluated_after_caller_edited_table.{form}")
+    # the object is USED by a reservoir (a short two-phase simulation with recovery) before its
+    # tabulated diffusivity is read below: users of the object only read it
+    if int(phi * 1e4) % 3 == 0:
+        from bluebonnet.flow import TwoPhaseReservoir
+
+        a_before = np.array(obj.pvt_props["alpha"], dtype=float, copy=True)
+        try:
+            with warnings.catch_warnings(), np.errstate(all="ignore"):
+                warnings.simplefilter("ignore")
+                r_ = TwoPhaseReservoir(8, float(P[max(1, ki // 3)]), float(P[ki]), obj, Sw)
+                r_.simulate(np.array([0.0, 0.01, 0.05, 0.3]))
+                r_.recovery_factor()
+        except Exception as e:  # noqa: BLE001
+            ck.count(f"use_by_a_reservoir_raised.{type(e).__name__}")
+        if not np.array_equal(np.asarray(obj.pvt_props["alpha"], dtype=float), a_before, equal_nan=True):
+            ck.violation("flow-properties-unchanged-by-a-simulation", {"max_rel_change_of_tabulated_alpha": float(np.nanmax(np.abs(np.asarray(obj.pvt_props["alpha"], dtype=float) / a_before - 1)))}, desc)
+        ck.count("objects_used_by_a_reservoir_before_reading_alpha")
     # diffusivity = mobility / compressibility (stand-alone and tabulated)
     if not const_tab:
         al = np.asarray(fp.alpha_multiphase(pe, Soe, phi, Sw, pvt_lib, kr_lib), dtype=float)
